@@ -2,6 +2,7 @@ package checks
 
 import (
 	"bytes"
+	"crypto/sha256"
 	"encoding/json"
 	"fmt"
 	"math/big"
@@ -491,7 +492,7 @@ func init() {
 		if ch == nil {
 			panic("atonce: check " + id + " not registered yet")
 		}
-		if len(atOnceOps(id)) == 0 && len(fuUnits(id)) == 0 {
+		if len(atOnceOps(id)) == 0 && len(fuUnits(id)) == 0 && len(workersUnits(id)) == 0 {
 			continue
 		}
 		ch.Rule += "; two callers at once: for every pair of this property's operations (and, in a fresh process per execution, for their first use) the default execution plus every execution with one switch (thorough: two) to the other top-level caller at a scheduling point (sync, channel, pool, sync/atomic operations), each judged against the calls executed alone (<id>.at_once, <id>.first_use)"
@@ -502,7 +503,125 @@ func init() {
 				return us
 			}
 			us = append(us, atOnceUnits(id)...)
+			us = append(us, workersUnits(id)...)
 			return append(us, fuUnits(id)...)
 		}
 	}
+}
+
+// ---------- the workers of ONE call at the variables they share ----------
+
+// A worker closure that a call runs on several goroutines (parallel.Execute, go statements) shares every
+// local variable of the enclosing function it names. The instrumenter places points at those accesses as
+// well; here one call is explored with every single switch between its own goroutines at such a point
+// (bounded search without the caller filter, switch points visited in binary-subdivision order under the
+// cap): a scratch variable hoisted out of the closure gives results that depend on the schedule.
+type wkCall struct {
+	name  string
+	props string
+	f     func(c *ipa.IPAConfig, seed int64) string
+}
+
+func wkMenu() []wkCall {
+	els := func(c *ipa.IPAConfig, n int) ([]banderwagon.Element, []*banderwagon.Element) {
+		store := make([]banderwagon.Element, n)
+		ptrs := make([]*banderwagon.Element, n)
+		for i := range store {
+			store[i] = reprOf(c.SRS[(i*3+1)%256], 1+i%3)
+			ptrs[i] = &store[i]
+		}
+		return store, ptrs
+	}
+	return []wkCall{
+		{"ElementsToBytes / BatchToBytesUncompressed of 300 elements", "C07 C19", func(c *ipa.IPAConfig, seed int64) string {
+			_, ptrs := els(c, 300)
+			h := sha256.New()
+			for _, b := range banderwagon.ElementsToBytes(ptrs...) {
+				h.Write(b[:])
+			}
+			for _, b := range banderwagon.BatchToBytesUncompressed(ptrs...) {
+				h.Write(b[:])
+			}
+			return fmt.Sprintf("%x", h.Sum(nil))
+		}},
+		{"BatchMapToScalarField of 300 elements", "C11 C19", func(c *ipa.IPAConfig, seed int64) string {
+			_, ptrs := els(c, 300)
+			res := make([]*fr.Element, len(ptrs))
+			out := make([]fr.Element, len(ptrs))
+			for i := range res {
+				res[i] = &out[i]
+			}
+			err := banderwagon.BatchMapToScalarField(res, ptrs)
+			return frsDigest(out) + fmt.Sprint(err)
+		}},
+		{"BatchNormalize of 300 elements", "C07 C19", func(c *ipa.IPAConfig, seed int64) string {
+			store, ptrs := els(c, 300)
+			err := banderwagon.BatchNormalize(ptrs)
+			return elsDigest(store[:5]) + elsDigest(store[295:]) + fmt.Sprint(err)
+		}},
+		{"fr.BatchInvert of 1100 values", "C15 C19", func(c *ipa.IPAConfig, seed int64) string {
+			v := make([]fr.Element, 1100)
+			for i := range v {
+				if i%97 != 5 {
+					v[i] = frFromBig(bi(int64(i + 2)))
+				}
+			}
+			return frsDigest(fr.BatchInvert(v))
+		}},
+		{"ipa.MultiScalar of 40 points", "C05 C09", func(c *ipa.IPAConfig, seed int64) string {
+			sc := make([]fr.Element, 40)
+			for i := range sc {
+				sc[i] = frFromBig(prfR(seed, "wk", i))
+			}
+			e, err := ipa.MultiScalar(c.SRS[:40], sc)
+			return elString(&e) + fmt.Sprint(err)
+		}},
+		{"CreateMultiProof with 5 openings (grouping workers)", "C01 C03", func(c *ipa.IPAConfig, seed int64) string {
+			polys := polyAlphabet(seed)
+			s := stmt{label: "vt"}
+			for i := 0; i < 5; i++ {
+				s.zs = append(s.zs, (i*37+3)%256)
+				s.polys = append(s.polys, pick(polys, 8+i%6))
+			}
+			b, _, err := implProofBytes(c, s)
+			return fmt.Sprintf("%x %v", sha256.Sum256(b), err)
+		}},
+	}
+}
+
+func workersUnits(id string) []core.Unit {
+	var us []core.Unit
+	for _, w := range wkMenu() {
+		if !hasWord(w.props, id) {
+			continue
+		}
+		for _, cpu := range []int{2, 3} {
+			w, cpu := w, cpu
+			name := fmt.Sprintf("the workers of one call at the variables they share, every switch point: %s, NumCPU=%d", w.name, cpu)
+			us = append(us, core.Unit{Name: name, Run: func(ctx *core.Ctx, r *core.Result) {
+				if !vsched.Instrumented {
+					r.Note("seam", "unavailable (fallback flavour)")
+					return
+				}
+				c := conf()
+				vsched.SetNumCPU(cpu)
+				defer vsched.SetNumCPU(0)
+				var want string
+				if !guard(r, lower(id)+".panic", w.name, "executed without the scheduler", func() { want = w.f(c, ctx.Seed) }) {
+					return
+				}
+				vsched.GlobalPoints = true
+				defer func() { vsched.GlobalPoints = false }()
+				bd, dl := 1, 10*time.Second
+				if ctx.Thorough() {
+					dl = 5 * time.Minute
+				}
+				st := core.Explore(r, core.SchedSpec{Name: name, API: w.name, Check: lower(id) + ".workers", Body: func() string { return w.f(c, ctx.Seed) }, Expect: want, Mode: "bounded",
+					Opt: explore.Options{MaxBound: bd, SchedOnly: true, Spread: true, MaxExecs: 200000, Deadline: dl}})
+				r.Nontrivial += int64(st.Complete)
+				r.Note("distinct_outcomes", len(st.Outcomes))
+			}})
+		}
+	}
+	return us
 }
